@@ -187,7 +187,7 @@ func main() {
 	}
 	h := &handler{c: c, buildBudget: 40}
 	if thorough {
-		h.buildBudget = 400
+		h.buildBudget = 300
 	}
 	override, curDevs, err := projgen.SpecOverride()
 	if err != nil {
